@@ -258,7 +258,7 @@ macro_rules! w1p {
         verif_harness_ns! {
             #[kani::stub(crate::serde::Checksummer::checksum64, stubs::checksum64_head)]
             #[kani::stub(crate::engine::block::buffer::BlobIndex::seal, crate::engine::block::buffer::BlobIndex::verif_seal_nocopy)]
-            $name, 6, $body
+            $name, 10, $body
         }
     };
 }
@@ -433,10 +433,144 @@ verif_harness_ns! { #[kani::stub(crate::serde::Checksummer::checksum64, stubs::c
     std::mem::forget(page);
 } }
 
+// ---- W1-lite harness list: (block pages; blob page, part page, count) x page counts of the batch ----
+macro_rules! lite1 {
+    ($name:ident, $bp:expr, $b:expr, $p:expr, $c:expr) => {
+        w1p!($name, { w1_lite::<1>($bp, $b, $p, $c, [1]); w1_lite::<1>($bp, $b, $p, $c, [2]); w1_lite::<1>($bp, $b, $p, $c, [3]); });
+    };
+}
+// every pre-state structure of a 4-page block the invariant allows, batch of one entry of 1, 2, 3 pages
+lite1!(c07_lite_b4_s0_1_0, 4, 0, 1, 0);
+lite1!(c07_lite_b4_s1_1_0, 4, 1, 1, 0);
+lite1!(c07_lite_b4_s2_1_0, 4, 2, 1, 0);
+lite1!(c07_lite_b4_s3_1_0, 4, 3, 1, 0);
+lite1!(c07_lite_b4_s4_1_0, 4, 4, 1, 0);
+lite1!(c07_lite_b4_s0_2_1, 4, 0, 2, 1);
+lite1!(c07_lite_b4_s0_3_1, 4, 0, 3, 1);
+lite1!(c07_lite_b4_s0_3_2, 4, 0, 3, 2);
+lite1!(c07_lite_b4_s0_4_1, 4, 0, 4, 1);
+lite1!(c07_lite_b4_s0_4_3, 4, 0, 4, 3);
+lite1!(c07_lite_b4_s1_2_1, 4, 1, 2, 1);
+lite1!(c07_lite_b4_s1_3_2, 4, 1, 3, 2);
+lite1!(c07_lite_b4_s2_2_1, 4, 2, 2, 1);
+// batches of two and three entries
+w1p!(c07_lite_b4_n2_fresh_11, { w1_lite::<2>(4, 0, 1, 0, [1, 1]); });
+w1p!(c07_lite_b4_n2_fresh_12, { w1_lite::<2>(4, 0, 1, 0, [1, 2]); });
+w1p!(c07_lite_b4_n2_fresh_22, { w1_lite::<2>(4, 0, 1, 0, [2, 2]); });
+w1p!(c07_lite_b4_n2_fresh_31, { w1_lite::<2>(4, 0, 1, 0, [3, 1]); });
+w1p!(c07_lite_b4_n2_mid_11, { w1_lite::<2>(4, 2, 1, 0, [1, 1]); });
+w1p!(c07_lite_b4_n2_cont_11, { w1_lite::<2>(4, 0, 2, 1, [1, 1]); });
+w1p!(c07_lite_b4_n2_cont_21, { w1_lite::<2>(4, 1, 2, 1, [2, 1]); });
+w1p!(c07_lite_b4_n3_fresh_111, { w1_lite::<3>(4, 0, 1, 0, [1, 1, 1]); });
+w1p!(c07_lite_b4_n3_fresh_121, { w1_lite::<3>(4, 0, 1, 0, [1, 2, 1]); });
+// 256-page block: index-full boundary - at the end of a batch (continued blob), in the middle of a batch, and not reached
+w1p!(c07_lite_b256_c169_n1, { w1_lite::<1>(256, 0, 170, 169, [1]); w1_lite::<1>(256, 3, 180, 169, [2]); });
+w1p!(c07_lite_b256_c168_n2, { w1_lite::<2>(256, 0, 169, 168, [1, 1]); });
+w1p!(c07_lite_b256_c169_n2, { w1_lite::<2>(256, 0, 170, 169, [1, 3]); });
+w1p!(c07_lite_b256_c168_n3, { w1_lite::<3>(256, 0, 169, 168, [1, 1, 1]); });
+w1p!(c07_lite_b256_c100_n2, { w1_lite::<2>(256, 0, 101, 100, [1, 2]); });
+w1p!(c07_lite_b256_near_end, { w1_lite::<1>(256, 0, 254, 100, [2]); w1_lite::<1>(256, 0, 254, 100, [3]); });
+
+
 // native replay of counterexamples: bin/check writes the unit test Kani generated (`--concrete-playback=print`) into the
 // included file and runs `cargo kani playback`; the file is empty otherwise.
 #[allow(unused_imports, dead_code)]
 mod playback {
     use super::*;
     include!("/verif/harness/playback/foyer-storage/engine__block__buffer__verif_kani.rs");
+}
+
+/// W1-lite: the split context after one batch, from a literal pre-state structure, with symbolic in-page lengths:
+/// invariant preserved and the context's (blob offset, part offset, count) equal to the values the layout rules imply -
+/// computed here from the literals by the straightforward rule "entries are placed back to back behind the open blob; a
+/// blob ends when its index is full or the block cannot take the next entry; a new block starts at 0".
+fn w1_lite<const N: usize>(bp: usize, b_pages: usize, p_pages: usize, c: usize, entry_pages: [usize; N]) {
+    w1_g::<N, false>(bp, b_pages, p_pages, c, entry_pages)
+}
+fn w1_g<const N: usize, const GEOM: bool>(bp: usize, b_pages: usize, p_pages: usize, c: usize, entry_pages: [usize; N]) {
+    let mut ctx = mk_ctx(bp, b_pages, p_pages, c);
+    let mut infos: Vec<BufferEntryInfo> = Vec::with_capacity(N);
+    let mut total = 0usize;
+    // reference layout over page numbers
+    let (mut rb, mut rp, mut rc) = (b_pages, p_pages, c);
+    let mut rblock = 0usize;
+    let mut exp_block = [0usize; N];
+    let mut exp_addr = [0usize; N];
+    let mut i = 0;
+    while i < N {
+        let tail: usize = kani::any();
+        kani::assume(tail >= 1 && tail <= PAGE);
+        infos.push(BufferEntryInfo { hash: 100 + i as u64, sequence: 1000 + i as u64, offset: total, len: (entry_pages[i] - 1) * PAGE + tail });
+        total += entry_pages[i] * PAGE;
+        // reference: close the blob if its index is full, move to the next block if the entry does not fit
+        if rc >= CAP {
+            rb += rp;
+            rp = 1;
+            rc = 0;
+        }
+        if rb + rp + entry_pages[i] > bp {
+            rb = 0;
+            rp = 1;
+            rc = 0;
+            rblock += 1;
+        }
+        exp_block[i] = rblock;
+        exp_addr[i] = rb + rp;
+        rp += entry_pages[i];
+        rc += 1;
+        i += 1;
+    }
+    // at the end of a batch a full index closes the blob
+    if rc >= CAP {
+        rb += rp;
+        rp = 1;
+        rc = 0;
+    }
+    let bytes = IoSliceMut::new(N * MAX_ENTRY).into_io_slice();
+    let batch = Splitter::split(&mut ctx, bytes, infos);
+    if GEOM {
+        // per-entry geometry (scalar fields only - no pointer arithmetic, no page reads): walking blocks / parts / indices
+        // in order yields the entries in input order at the block number and address the reference layout predicts
+        let mut seen = 0usize;
+        let mut bi = 0;
+        while bi < N + 1 {
+            if bi < batch.blocks.len() {
+                let parts = &batch.blocks[bi].blob_parts;
+                let mut pi = 0;
+                while pi < N {
+                    if pi < parts.len() {
+                        let part = &parts[pi];
+                        let mut at = part.blob_block_offset + part.part_blob_offset;
+                        assert!(at + part.data.len() <= bp * PAGE && part.part_blob_offset >= INDEX, "C07-W1: blob part outside the block / over its index page");
+                        let mut ii = 0;
+                        while ii < N {
+                            if ii < part.indices.len() {
+                                let ix = &part.indices[ii];
+                                assert!(seen < N, "C07-W1: more entries emitted than submitted");
+                                assert!(ix.hash == 100 + seen as u64 && ix.sequence == 1000 + seen as u64, "C07-W1: entry order / identity changed by the splitter");
+                                assert!(bi == exp_block[seen] && part.blob_block_offset + ix.offset as usize == exp_addr[seen] * PAGE,
+                                    "C07-W1: recorded entry address differs from the layout rules (overlap / gap / wrong block)");
+                                assert!(part.blob_block_offset + ix.offset as usize == at, "C07-W1: recorded entry address is not where its bytes go inside the part");
+                                assert!(bits::align_up(PAGE, ix.len as usize) == entry_pages[seen] * PAGE, "C07-W1: recorded length differs from the entry's");
+                                at += entry_pages[seen] * PAGE;
+                                seen += 1;
+                            }
+                            ii += 1;
+                        }
+                        assert!(at == part.blob_block_offset + part.part_blob_offset + part.data.len(), "C07-W1: data part length differs from its entries");
+                    }
+                    pi += 1;
+                }
+            }
+            bi += 1;
+        }
+        assert!(seen == N, "C07-W1: an entry was lost by the splitter");
+    }
+    assert!(inv(&ctx, bp * PAGE), "C07-W1: split context invariant broken after a batch");
+    assert!(ctx.current_blob_block_offset == rb * PAGE, "C07-W1: next blob / open blob is not where the layout rules put it (overlap or gap)");
+    assert!(ctx.current_part_blob_offset == rp * PAGE, "C07-W1: open blob's data end is not where the layout rules put it");
+    assert!(ctx.current_blob_index.count == rc, "C07-W1: open blob's entry count differs from the layout rules");
+    kani::cover!(true, "end reached");
+    std::mem::forget(batch);
+    std::mem::forget(ctx);
 }
